@@ -211,6 +211,9 @@ class Session:
             if z3.is_and(g):
                 for cj in g.children():
                     print("   conjunct", str(z3.simplify(m.eval(cj, model_completion=True))), "::", str(cj)[:300])
+            else:
+                print("   goal:", str(z3.simplify(g))[:1500])
+                print("   model:", str(m)[:800])
         # the modular context drops hypotheses, so a counter-model here may be spurious: decide in the full context
         res = self.prove(name, goal)
         if res.status != "proved":
